@@ -913,3 +913,40 @@ Definition norm_sweep_error (ms : list nat) (st : @cpstate F) : F * F :=
   | None => err_cp_true Op X R (fst (fst r)) (snd (fst r)) None None
   end.
 End NormSweep.
+
+(* ---------------------------------------------------------------- tensor_ring_als: the sub-problem of mode dim ON DATA, step by step *)
+(* the tensordot / transpose / reshape pipeline of tensorly/decomposition/_tr_als.py executed on tensors as data:
+     tensor_unf = matricize(tensor, [n != dim], [dim])             = reshape(transpose(tensor, rows ++ [dim]), (prod rows, shape[dim]))
+     subchain = tr_decomp[(dim+1) % N]; for j in 2..N-1: subchain = tensordot(subchain, tr_decomp[(dim+j) % N], axes=1)
+     design_mat = reshape(transpose(subchain, tr_idx), (-1, rank[dim] * rank[dim+1]))
+     tr_decomp[dim] = transpose(reshape(sol, (rank[dim], rank[dim+1], shape[dim])), [0, 2, 1])   <=>   sol = reshape(transpose(core, [0, 2, 1]), (rank[dim]*rank[dim+1], shape[dim]))
+     error = norm(matmul(design_mat, sol) - tensor_unf)
+   The correspondence evaluates this on the cores of real runs and requires EXACT equality with the index-level ls_residual2 (the quantity the
+   trace-cyclicity theorems are about) for every mode: the index-level restatement and the data-level pipeline agree on every instance. *)
+Section TRData.
+Context {F : Type} (Op : fops F).
+Definition tensordot1 (a b : tensor F) : tensor F :=
+  let sa := removelast (shape a) in let sb := tl (shape b) in let k := last (shape a) 0 in
+  tabulate (sa ++ sb) (fun idx => Fsum Op k (fun c => fmul Op (get (f0 Op) a (firstn (length sa) idx ++ [c])) (get (f0 Op) b (c :: skipn (length sa) idx)))).
+Definition matricize_data (X : tensor F) (rows : list nat) (col : nat) : tensor F :=
+  let t := transpose (f0 Op) (rows ++ [col]) X in reshape [prod (removelast (shape t)); last (shape t) 0] t.
+Definition matmul_data (a b : tensor F) : tensor F :=
+  let m := nth 0 (shape a) 0 in let k := nth 1 (shape a) 0 in let n := nth 1 (shape b) 0 in
+  tabulate [m; n] (fun pi => Fsum Op k (fun q => fmul Op (get (f0 Op) a [nth 0 pi 0; q]) (get (f0 Op) b [q; nth 1 pi 0]))).
+Definition tr_design_data (cores : list (tensor F)) (dim : nat) : tensor F :=
+  let N := length cores in
+  let core := fun k => nth k cores (mk [] []) in
+  let sub := fold_left (fun acc j => tensordot1 acc (core ((dim + j) mod N))) (seq 2 (N - 2)) (core ((dim + 1) mod N)) in
+  let subT := transpose (f0 Op) (tr_idx N dim) sub in
+  let cols := nth 0 (shape (core dim)) 0 * nth 2 (shape (core dim)) 0 in
+  reshape [prod (shape subT) / cols; cols] subT.
+Definition tr_sol_data (cores : list (tensor F)) (dim : nat) : tensor F :=
+  let c := nth dim cores (mk [] []) in
+  let t := transpose (f0 Op) [0; 2; 1] c in
+  reshape [nth 0 (shape c) 0 * nth 2 (shape c) 0; nth 1 (shape c) 0] t.
+Definition tr_residual2_data (X : tensor F) (cores : list (tensor F)) (dim : nat) : F :=
+  let N := length cores in
+  let unf := matricize_data X (remove_nth dim (seq 0 N)) dim in
+  let pred := matmul_data (tr_design_data cores dim) (tr_sol_data cores dim) in
+  Fsum_idx Op (shape unf) (fun pi => sq Op (fsub Op (get (f0 Op) pred pi) (get (f0 Op) unf pi))).
+End TRData.
